@@ -140,7 +140,21 @@ PROPS["C12"] = {
     "partial": "containment below level 1 and pixel accuracy (floating point)",
 }
 
+PROPS["C06"] = {
+    "gen": ["Sampling", "Paths", "Masks", "PIO", "Stage"],
+    "trusted_base": ["coordinates and sampler are parameters of the model (any function); the coordinates the real callback uses are those of C05",
+                     "file codecs (np.save, astropy.io.fits, PIL) are exercised by independent read-back, not modelled",
+                     "the set and order of leaves delivered by visit_leaves is the subject of C13 (serial) and C03 (parallel hand-off); here it is any duplicate-free list"],
+    "assumptions": COMMON_ASSUME + ["the sampler is a deterministic function of the coordinates"],
+    "partial": "",
+}
+
 LEVEL_TEXT = {
+    "C06": {
+        "text": "The statement sequence of ToastSampler.visit_callback / __init__ and of sample_layer[_filtered] is re-extracted each run; the per-pixel merge and the persistence rules are the generated C15 definitions. Kernel-checked for every sampler, coordinate function, pixel mode, set of visited tiles and order of visits: the image handed to the writer is, in display orientation, the sampler at the coordinates of the same tile and pixel; rows are reversed exactly when the format the tiles are written in (default or override) is bottom-up (FITS); callbacks of different tiles commute, so any permutation of a duplicate-free visit list leaves the same pyramid; a visited tile holds the sampled image (clobber; no file when completely masked) or the C15 merge into its previous content (update), an unvisited tile is untouched; composed with the C03 theorem: in every returned state of the parallel hand-off, for any number of workers and any interleaving, the pyramid equals the serial one. Real sample_layer / sample_layer_filtered runs (depth 0-3, both systems, npy/fits/png with and without a format override, masked scalar and RGB samplers, clobber over existing tiles, two-pass updates, 1 and 3 workers) are read back file by file with independent decoders.",
+        "note": "trusted: Lean kernel; AST extraction (gen_more.gen_sampling); the harness and its independent decoders.",
+        "technique": "Lean 4 proof (commutation / permutation invariance over an abstract sampler, composed with the C03 protocol theorem) + differential read-back of real runs",
+    },
     "C12": {
         "text": "The level-1 rules of _toast_tile_containment_score and the statement shape of toast_tile_for_point / toast_pixel_for_point are re-extracted every run. Kernel-checked for every rational longitude (turns), every number of whole extra turns, both coordinate systems, every depth and every outcome of the floating-point scores: the level-1 loop always stops at a tile scoring 0 and that tile has among its corners, in the requested coordinate system, the two equatorial vertices of a quarter of longitudes containing the point; whole turns do not change the answer; at each level the child chosen has the largest score, the first zero-scoring child if there is one; answers for increasing depths are nested and the tile returned is the C04 tile of its position; a clipped edge sum is 0 iff the point is on the inner side of all four edges. The real lookup is run against the model at quarter-turn boundaries, interior rationals and scripted scores, and on floats (random and special points, tile features, both systems, depths 0-12) for containment, nesting and 2π-periodicity; pixel positions are compared with the nearest pixel centre.",
         "note": "trusted: Lean kernel; the AST extraction (gen_more.gen_lookup); the harness. Containment below level 1 and the pixel fit are floating-point geometry: validated numerically only.",
